@@ -152,5 +152,6 @@ func judge(sc *Scenario, x *vrt.Execution) []verdict {
 	}
 	v = append(v, judgeHooks(sc, x)...)
 	v = append(v, judgeHandover(sc, x)...)
+	v = append(v, judgeStageEnv(sc, x)...)
 	return v
 }
